@@ -157,6 +157,8 @@ pub struct MapRunner<K: KeyT, V: ValT> {
     pub dead: std::collections::BTreeSet<String>,
     /// a leak is legitimate from here on (a drain was forgotten / a destructor panicked)
     pub leak_ok: bool,
+    /// `Clone` calls accounted for so far (every clone created must end up stored, dropped or handed back)
+    pub cc_seen: u64,
     /// elements handed out by extract_if / drain / into_iter during the current op; owned by the
     /// caller, so they must survive an unwind out of the op and be dropped quietly afterwards
     pub stash: Vec<(K, V)>,
@@ -277,6 +279,29 @@ pub fn nats(v: &[usize]) -> String {
     v.iter().map(|x| x.to_string()).collect::<Vec<_>>().join(",")
 }
 
+/// "In any state inserting up to capacity()-len() keys that are not yet present performs no allocation" (C08),
+/// judged on the public observables: a call that inserts ONE element (len grew by one) while the collection
+/// advertised spare room must leave `allocation_size()` as it was.
+pub fn insert_within_capacity(name: &str, before: (usize, usize, usize), after: (usize, usize, usize)) -> Option<String> {
+    const SINGLE: &[&str] = &[
+        "insert", "try_insert", "replace", "get_or_insert", "get_or_insert_with", "entry_insert", "entry_or_insert",
+        "insert_unique", "entry", "entry_ref", "rustc_entry", "raw_from_key", "raw_from_hash", "raw_from_key_hashed",
+        "entry_and_modify",
+    ];
+    let (blen, bcap, basz) = before;
+    let (len, _cap, asz) = after;
+    if SINGLE.contains(&name) && len == blen + 1 && bcap > blen && asz != basz {
+        return Some(format!(
+            "{} inserted one element while capacity()-len() was {} and the allocation changed {} -> {} bytes",
+            name,
+            bcap - blen,
+            basz,
+            asz
+        ));
+    }
+    None
+}
+
 /// Direct oracle of the capacity contract (C08) for the HashSet / HashTable wrappers, evaluated on
 /// `(len, capacity, allocation_size)` of the real collection before and after a call that returned.
 pub fn cap_oracle(name: &str, args: &[&str], ret: &str, before: (usize, usize, usize), after: (usize, usize, usize)) -> Option<String> {
@@ -288,6 +313,9 @@ pub fn cap_oracle(name: &str, args: &[&str], ret: &str, before: (usize, usize, u
     }
     if cap < len {
         return Some(format!("capacity {} < len {} after {}", cap, len, name));
+    }
+    if let Some(why) = insert_within_capacity(name, before, after) {
+        return Some(why);
     }
     match name {
         "reserve" => {
@@ -580,6 +608,7 @@ impl<K: KeyT, V: ValT> MapRunner<K, V> {
             live: Default::default(),
             dead: Default::default(),
             leak_ok: false,
+            cc_seen: 0,
             stash: Vec::new(),
             churn_only: [true, true],
             peak: [0, 0],
@@ -846,6 +875,21 @@ impl<K: KeyT, V: ValT> MapRunner<K, V> {
                 return Some(format!("object {} handed to the caller although the collection dropped it (or handed it out before)", id));
             }
         }
+        // every object `Clone` created during this call is stored, was dropped, or was handed back
+        let (cc_now, cpanic) = tape::with(|t| (t.cc, t.p.cpanic));
+        let cc_from = std::mem::replace(&mut self.cc_seen, cc_now);
+        if !self.leak_ok {
+            for c in cc_from..cc_now {
+                if cpanic == Some(c) {
+                    continue;
+                }
+                for id in [format!("k{}", 1_000_000 + 2 * c), format!("v{}", 1_000_001 + 2 * c)] {
+                    if !held.contains(&id) && !self.dead.contains(&id) {
+                        return Some(format!("clone {} leaked: created by this call, stored nowhere, never dropped", id));
+                    }
+                }
+            }
+        }
         for id in &held {
             if !self.live.contains(id) {
                 return Some(format!("object {} is in a collection but was dropped or returned", id));
@@ -880,6 +924,11 @@ impl<K: KeyT, V: ValT> MapRunner<K, V> {
         }
         let allocs = events.iter().filter(|e| e.starts_with("al")).count();
         let refused = tape::with(|t| std::mem::take(&mut t.refused));
+        if !ret.starts_with("panic") {
+            if let Some(why) = insert_within_capacity(name, (*blen, *bcap, *basz), (len, cap, asz)) {
+                return Some(why);
+            }
+        }
         match (name, a.len()) {
             ("reserve", 1) if ret == "()" => {
                 if (cap as u128) < len as u128 + n(0) {
